@@ -232,7 +232,7 @@ EXTRA2 = {
  'C07': 'The value stored is the value supplied and the one fetched; the iterator linked into lru / timeout / triggers is the inserted one; add_trigger registers entry and back reference; rise / remove delete every selected entry. cache_interface::fetch / store never override the caller\'s notriggers argument (C07.R6). cache_interface plumbing (C07.R10): rise / clear reach the backend, trigger loops visit their whole container, store records exactly when not notriggers, deadtime(sec) = now + sec or never, recorders keep and hand out what they are told, frame wrappers forward. shmem_control accessors forward to the allocator primitive of their own meaning and memory pressure is judged from the largest free chunk; cache_pool reads only option paths the reference configuration knows (C07.R10).',
  'C10': 'Wire format end to end (store frame and data reply: lengths, slices, NUL-separated names; operations reach the cache); the client verdict follows the reply opcode.',
  'C11': 'Object keys are compared over their whole length (no NUL-terminated primitive reachable from string_key comparison). The arithmetic behind \\u escapes is exact by abstract interpretation: utf8::encode gives the RFC 3629 bytes and length for every code point (aligned 64-blocks; every 7th block in the quick tier), the surrogate range tests and combine_surrogate are exact (C11.R10). The tokenizer validates decoded strings as plain UTF-8 (effective html argument false) (C11.R3). Narrowing floating conversions test both bounds against the limits of the type converted to (C11.R7).',
- 'C12': 'The in-memory field limit handed to size_ok is content_length_limit(). Saving an upload keeps every byte (C12.R7): the reading side is cleared and rewound and the buffer synchronised before the bytes move, in-memory uploads are copied out, on-disk ones renamed and copied only after a failed rename, save_by_copy writes the whole stream in binary mode. The upload stream buffer returns characters only through to_int_type / unsigned char (C12.R8: 0xFF must not read as end of file). The limits compared are the configured ones (C12.R9): each from the settings entry of its own name and key, KB limits scaled by exactly 1024, accessors read / write their own member.',
+ 'C12': 'The in-memory field limit handed to size_ok is content_length_limit(). Saving an upload keeps every byte (C12.R7): the reading side is cleared and rewound and the buffer synchronised before the bytes move, in-memory uploads are copied out, on-disk ones renamed and copied only after a failed rename, save_by_copy writes the whole stream in binary mode. The upload stream buffer returns characters only through to_int_type / unsigned char (C12.R8: 0xFF must not read as end of file). The limits compared are the configured ones (C12.R9): each from the settings entry of its own name and key, KB limits scaled by exactly 1024, accessors read / write their own member. The filter-kind flags on_content_progress dispatches on are brought up to date wherever the filter pointer is written (C12.R10).',
  'C13': 'normalize_path never yields a climbing path for any input up to 6 (8 thorough) bytes (abstract interpretation by byte class); an alias applies only on a whole-component prefix, at most once, with the target of the tested alias; the unchecked branch returns root + path minus one trailing separator. Only / separates path components in this configuration (E3 over every byte) and the document root and alias targets are stored only after canonical() resolved them (C13.R7).',
  'C14': 'Form text widgets validate the whole value, mark invalid text, and compare both limits with the code-point count. The accept set of every single-byte validator equals the defined non-control characters of its code pages (reference: Python codec tables); the whole-string UTF-8 validators ask the decoder once per code point, in order, and count one per code point (decoder summarised); dispatch by name hands (begin,end,count) to the registered validator, falls back through a stop-conversion to UTF-8, and the single-byte and conversion-based filters keep good text and replace or drop the rest; encoding names compare by their lower-cased alphanumerics. An out-of-bounds access or a value-returning function falling off its end met during abstract interpretation is reported as a violation (rule Cnn.BOUNDS). The iconv back-end never ends a stop conversion normally after a failed step other than E2BIG (C14.R6).',
  'C15': 'Buffered filterbuf keeps byte order; base64url range drivers hand every block to the block codec at matching offsets into an exactly sized buffer for lengths 0..40; urldecode continues exactly behind each unit. Template filters: operator() of escape / urlencode / base64_urlencode diverts the stream into the converting buffer before the value is rendered (C15.R8); the buffered filterbuf is checked against the std::streambuf put-area protocol by abstract interpretation - every byte put reaches convert once, in order, with the original buffer as sink, release restores the stream, a failing convert surfaces as EOF / failbit / -1 (C15.R9). filterbuf::overflow tests EOF on the int (C15.R9). numeric<T> (header template, instantiated in an analysis-only unit) echoes rejected input only escaped (C15.R2); copies of the filter classes carry every member (C15.R8). What urldecode takes for a %XX escape is decided by xdigit(), which is true for exactly 0-9 a-f A-F (C15.R3).',
